@@ -46,6 +46,113 @@ RAISE_VIEW = [
 ]
 
 
+LV = 'last_view'
+VIEW_OF_LAST = [
+    ('view_is_exactly_the_included_results', "forall(lambda k: (k in last_view) == " + INCLUDED('k') + ", 'str')", ['C12']),
+    ('view_values_are_the_recorded_results', "forall(lambda k: implies(k in last_view, last_view[k] is " + ER + "[k]), 'str')", ['C12']),
+    ('view_in_handler_order', "forall(lambda k1, k2: implies(k1 in last_view and k2 in last_view, (pos(last_view, k1) < pos(last_view, k2)) == (pos(" + ER + ", k1) < pos(" + ER + ", k2))), 'str', 'str')", ['C12']),
+]
+
+WRAPPER_PARAMS = {'self': 'BaseEvent', 'timeout': 'opt[real]', 'include': 'any', 'raise_if_any': 'bool', 'raise_if_none': 'bool'}
+
+
+def set_view(ex, n, r):
+    ex.ghost_set('last_view', V(r.ty, r.term))
+
+
+def install_wrappers(spec: Spec):
+    """The accessors built on event_results_filtered: each is stated as a map over `last_view` - the dict the inner call returned
+    (ghost, set at the call site) - and re-exports that this dict is exactly the included view of the recorded results."""
+    from pyvc.values import parse_ty
+    M = 'bubus/models.py'
+    F = spec.functions['BaseEvent.event_results_filtered']
+    spec.ghosts['last_view'] = parse_ty('dict[str,EventResult]')
+    # the wrappers pass the inner accessor's exceptions on unchanged: same clauses, raised at the inner call
+    raises = [RaisesClause(rc.cls, when=rc.when, ensures=[(c.label, c.expr, list(c.tags)) for c in rc.ensures], label=rc.label, tags=rc.tags,
+                           origin='call:BaseEvent.event_results_filtered/' + rc.label, delivered=rc.delivered)
+              for rc in F.raises if not rc.caller_only]
+    common = dict(file=M, is_async=True, interference='results', requires=[('in_loop', 'loop_running()', [])],
+                  modifies=[(c[0], c[1]) for c in F.modifies], ghost_modifies=['last_view'],
+                  callsites={'self.event_results_filtered': {'post': set_view}}, raises=raises)
+
+    def fn(name, returns, ensures, locals_, **kw):
+        key = 'BaseEvent.' + name
+        spec.fn(key, qual=key, params=dict(WRAPPER_PARAMS), returns=returns, locals=locals_,
+                ensures=VIEW_OF_LAST + ensures, **dict(common, **kw))
+        spec.methods[('BaseEvent', name)] = key
+
+    fn('event_results_by_handler_id', 'dict[str,any]',
+       [('one_entry_per_included_result', "forall(lambda k: (k in result) == (k in last_view), 'str')", ['C12']),
+        ('values_are_the_recorded_values', "forall(lambda k: implies(k in result, result[k] is last_view[k].result), 'str')", ['C12']),
+        ('in_view_order', "forall(lambda k1, k2: implies(k1 in result and k2 in result, (pos(result, k1) < pos(result, k2)) == (pos(last_view, k1) < pos(last_view, k2))), 'str', 'str')", ['C12'])],
+       {'included_results': 'dict[str,EventResult]'})
+    fn('event_results_list', 'list[any]',
+       [('one_value_per_included_result', 'len(result) == len(last_view)', ['C12']),
+        ('values_in_view_order', 'forall(lambda i: implies(0 <= i and i < len(result), result[i] is last_view[list(last_view)[i]].result))', ['C12'])],
+       {'valid_results': 'dict[str,EventResult]'})
+    fn('event_result', 'any',
+       [('none_if_nothing_included', 'implies(len(last_view) == 0, result is None)', ['C12']),
+        ('first_included_value', 'implies(len(last_view) > 0, result is last_view[list(last_view)[0]].result)', ['C12'])],
+       {'valid_results': 'dict[str,EventResult]', 'results': 'list[EventResult]'})
+    fn('event_results_by_handler_name', 'dict[str,any]',
+       [('every_included_result_is_listed_under_its_handler_name', "forall(lambda k: implies(k in last_view, last_view[k].handler_name in result and result[last_view[k].handler_name] is last_view[k].result), 'str')", ['C12']),
+        ('one_entry_per_included_result', 'len(result) == len(last_view)', ['C12'])],
+       {'included_results': 'dict[str,EventResult]'})
+
+
+def install_flat_list(spec: Spec):
+    """event_results_flat_list: the concatenation, in handler order, of the list values of the included results.
+    A list value of type Any is an object with the heap field list_items; ghost flat_offsets[j] = len(merged) before the j-th extend."""
+    from pyvc.values import parse_ty, mk_int
+    M = 'bubus/models.py'
+    F = spec.functions['BaseEvent.event_results_filtered']
+    spec.field('list_items', 'list[any]')
+    spec.ghosts['flat_offsets'] = parse_ty('list[int]')
+    raises = [RaisesClause(rc.cls, when=rc.when, ensures=[], label=rc.label, tags=rc.tags,
+                           origin='call:BaseEvent.event_results_filtered/' + rc.label, delivered=rc.delivered)
+              for rc in F.raises if not rc.caller_only]
+
+    def extend_pre(ex, n):
+        cur = ex.lookup('merged_results')
+        ex.ghost_set('flat_offsets', ex.list_append(ex.ghost('flat_offsets'), mk_int(ex.list_len(cur))))
+
+    def include_pure(ex, n):
+        f = ex.lookup('include')
+        r = ex.eval(n.args[0])
+        return spec.specfuns['holds'](ex, f, r)
+
+    O0 = 'old(len(flat_offsets))'
+    ITEMS = lambda j: 'loop_seq[' + j + '].result.list_items'
+    VITEMS = lambda j: 'last_view[list(last_view)[' + j + ']].result.list_items'
+    LIST_INCLUDED = lambda k: "(" + k + " in " + ER + " and isinstance(" + ER + "[" + k + "].result, list) and holds(include, " + ER + "[" + k + "]))"
+    key = 'BaseEvent.event_results_flat_list'
+    spec.fn(key, file=M, qual=key, is_async=True, interference='results', params=dict(WRAPPER_PARAMS), returns='list[any]',
+            requires=[('in_loop', 'loop_running()', [])],
+            modifies=[(c[0], c[1]) for c in F.modifies], ghost_modifies=['last_view', 'flat_offsets'],
+            locals={'valid_results': 'dict[str,EventResult]', 'merged_results': 'list[any]'},
+            callsites={'self.event_results_filtered': {'post': set_view}, 'merged_results.extend': {'pre': extend_pre, 'ghost_writes': ['flat_offsets']},
+                       'include(event_result)': {'pure': include_pure}},
+            loops={0: {'inv': [
+                ('one_offset_per_result_so_far', 'len(flat_offsets) == ' + O0 + ' + loop_i', []),
+                ('segments_are_contiguous', "forall(lambda j: implies(0 <= j and j < loop_i, flat_offsets[" + O0 + " + j] == (0 if j == 0 else flat_offsets[" + O0 + " + j - 1] + len(" + ITEMS('j - 1') + "))))", ['C12']),
+                ('merged_ends_after_the_last_segment', "len(merged_results) == (0 if loop_i == 0 else flat_offsets[" + O0 + " + loop_i - 1] + len(" + ITEMS('loop_i - 1') + "))", ['C12']),
+                ('offsets_within_the_list', "forall(lambda j: implies(0 <= j and j < loop_i, 0 <= flat_offsets[" + O0 + " + j] and flat_offsets[" + O0 + " + j] + len(" + ITEMS('j') + ") <= len(merged_results)))", []),
+                ('segments_hold_the_values_in_place', "forall(lambda j, i: implies(0 <= j and j < loop_i and 0 <= i and i < len(" + ITEMS('j') + "), "
+                                                      "merged_results[flat_offsets[" + O0 + " + j] + i] is " + ITEMS('j') + "[i]), 'int', 'int')", ['C12']),
+            ]}},
+            ensures=[
+                ('view_is_exactly_the_included_list_results', "forall(lambda k: (k in last_view) == " + LIST_INCLUDED('k') + ", 'str')", ['C12']),
+                VIEW_OF_LAST[1], VIEW_OF_LAST[2],
+                ('one_segment_per_included_result', 'len(flat_offsets) == ' + O0 + ' + len(last_view)', ['C12']),
+                ('segments_are_contiguous_from_zero', "forall(lambda j: implies(0 <= j and j < len(last_view), flat_offsets[" + O0 + " + j] == (0 if j == 0 else flat_offsets[" + O0 + " + j - 1] + len(" + VITEMS('j - 1') + "))))", ['C12']),
+                ('nothing_after_the_last_segment', "len(result) == (0 if len(last_view) == 0 else flat_offsets[" + O0 + " + len(last_view) - 1] + len(" + VITEMS('len(last_view) - 1') + "))", ['C12']),
+                ('each_segment_is_that_results_list', "forall(lambda j, i: implies(0 <= j and j < len(last_view) and 0 <= i and i < len(" + VITEMS('j') + "), "
+                                                      "result[flat_offsets[" + O0 + " + j] + i] is " + VITEMS('j') + "[i]), 'int', 'int')", ['C12']),
+            ],
+            raises=raises)
+    spec.methods[('BaseEvent', 'event_results_flat_list')] = key
+
+
 def install(spec: Spec):
     spec.specfuns['pos'] = sf_pos
     C = spec.functions['BaseEvent.event_results_filtered']
@@ -55,3 +162,5 @@ def install(spec: Spec):
         if rc.label == 'requested_raise':
             have = {c.label for c in rc.ensures}
             rc.ensures = list(rc.ensures) + [Clause.of(c) for c in RAISE_VIEW if c[0] not in have]
+    install_wrappers(spec)
+    install_flat_list(spec)
